@@ -117,3 +117,29 @@ def calibrate():
 
 def extra_checks(tier):
     return [("calibration", calibrate)]
+
+
+@harness(P, per_job=True, params=lambda tier: [dict(layout=l, hi=h) for l in ("envelope", "trailing") for h in ([(1 << 24) - 1] if tier == "quick" else [(1 << 24) - 1, (1 << 32) - 200])], max_steps=600000,
+         bounds="encrypted content whose LENGTH is a solver variable over [1, 2^24) (thorough also up to 2^32-200; opaque content): the three nested DER length fields around it "
+         "(EncryptedContentInfo, EnvelopedData, ContentInfo) are proved minimal and equal to the reference template, and the blob decodes back to the same content, for every length",
+         outside="content length 0 in this harness (covered by the listed-length harness)", must_reach=("symbolic length: blob equals the CMS template", "symbolic length: decode(encode(x)) == x"))
+def blob_symlen(c, layout, hi):
+    ints = {k: c.int(k, 0, U32) for k in ("version", "flags", "l0", "l1", "l2")}
+    rkb = c.bytes("rkid", 16)
+    rk = SymUUID(bytes_le=rkb) if c.symbolic else uuid.UUID(bytes_le=rkb)
+    keyinfo = c.bytes("keyinfo", 32)
+    kid = _blob.KeyIdentifier(ints["version"], ints["flags"], ints["l0"], ints["l1"], ints["l2"], rk, keyinfo, "domain.test", "f")
+    enc_cek = c.bytes("enc_cek", 40)
+    content, L = c.blob("content", 1, hi)
+    nonce = c.bytes("nonce", 12)
+    par = refs.ref_gcm_parameters(nonce)
+    sid = SIDS[1]
+    x = _blob.DPAPINGBlob(kid, _blob.SIDDescriptor(sid), enc_cek, "2.16.840.1.101.3.4.1.45", None, content, "2.16.840.1.101.3.4.1.46", par)
+    kid_ref = refs.ref_key_identifier(ints["version"], ints["flags"], ints["l0"], ints["l1"], ints["l2"], rkb, keyinfo, "domain.test", "f")
+    inenv = layout == "envelope"
+    b = c.call(x.pack, blob_in_envelope=inenv)
+    c.check(b == refs.ref_dpapi_ng_blob(kid_ref, sid, enc_cek, content, par, inenv), "symbolic length: blob equals the CMS template")
+    y = c.call(_blob.DPAPINGBlob.unpack, b)
+    c.check(all_of([y.enc_content == content, struct_eq(y.key_identifier, kid), seq_eq(y.enc_cek, enc_cek), seq_eq(y.enc_content_parameters, par)]),
+            "symbolic length: decode(encode(x)) == x")
+    return True
